@@ -69,6 +69,10 @@ type op struct {
 	// est: client and server halves share ONE cache (the process-wide one)
 	ClientSide bool `json:"clientside,omitempty"`
 	Shared     bool `json:"shared,omitempty"`
+	// est: lifetime the CLIENT proposes in its security ad (SecurityConfig.SessionDuration / SessionLease; 0 = attribute absent).
+	// The server's own duration and lease decide how long ITS entry lives.
+	AskDur   int `json:"askdur,omitempty"`
+	AskLease int `json:"asklease,omitempty"`
 	// resume
 	N     int    `json:"n,omitempty"`     // target session ordinal (also renew / inval)
 	Req   string `json:"req,omitempty"`   // legit idonly wrongkey rightkey unknown onechar
@@ -431,7 +435,7 @@ func (w *world) cacheOf(s *sess) *security.SessionCache {
 }
 
 // establish by a real full handshake; returns the new session
-func (w *world) establish(enc, authn, shared bool) *sess {
+func (w *world) establish(enc, authn, shared bool, askDur, askLease int) *sess {
 	cc, sc := net.Pipe()
 	ch := make(chan srvObs, 1)
 	go func() { ch <- serve(sc, serverConfigX(enc, w.custom, authn, false), clientAddr) }()
@@ -448,6 +452,7 @@ func (w *world) establish(enc, authn, shared bool) *sess {
 		AuthMethods: []security.AuthMethod{security.AuthNone}, Authentication: security.SecurityOptional,
 		CryptoMethods: []security.CryptoMethod{security.CryptoAES}, Encryption: security.SecurityPreferred, Integrity: security.SecurityOptional,
 		Command: 421, PeerName: peerName, SessionCache: ccache,
+		SessionDuration: askDur, SessionLease: askLease,
 	}
 	if authn {
 		cfg.AuthMethods = []security.AuthMethod{security.AuthClaimToBe}
@@ -710,7 +715,10 @@ func runHistory(h history) runOut {
 		var term string
 		switch o.Kind {
 		case "est":
-			s := w.establish(o.Enc, o.Auth, o.Shared)
+			s := w.establish(o.Enc, o.Auth, o.Shared, o.AskDur, o.AskLease)
+			if o.AskDur != 0 || o.AskLease != 0 {
+				out.counts["est-client-proposes-lifetime"]++
+			}
 			w.sess = append(w.sess, s)
 			if s == nil {
 				fail("establish-failed", "%s: full handshake against the honest server failed", what)
@@ -1088,7 +1096,7 @@ type replayCase struct {
 // Returns whether the replayed bytes were accepted as application data.
 func runReplay(rc replayCase) (accepted bool, detail string, recLen int, transcriptRepeats bool, err error) {
 	w := newWorld(history{})
-	s := w.establish(true, false, false)
+	s := w.establish(true, false, false, 0, 0)
 	if s == nil || s.key == nil {
 		return false, "", 0, false, errors.New("could not establish an encrypted session")
 	}
@@ -1173,7 +1181,14 @@ func randOp(c *core.Ctx, nsess int, custom bool) op {
 	case nsess == 0 || x < 14:
 		if r.Intn(2) == 0 {
 			enc := r.Intn(3) > 0
-			return op{Kind: "est", Enc: enc, Auth: r.Intn(2) == 0, Shared: r.Intn(3) == 0}
+			o := op{Kind: "est", Enc: enc, Auth: r.Intn(2) == 0, Shared: r.Intn(3) == 0}
+			if r.Intn(2) == 0 {
+				o.AskDur = []int{100, 9000, 2100, 1 << 40, 1, 86400}[r.Intn(6)]
+			}
+			if r.Intn(3) == 0 {
+				o.AskLease = []int{5, 9000, 950, 1 << 40}[r.Intn(4)]
+			}
+			return o
 		}
 		if r.Intn(4) == 0 {
 			return op{Kind: "mint", EncOff: r.Intn(2) == 0, IntOff: r.Intn(2) == 0}
@@ -1242,6 +1257,11 @@ func gen(c *core.Ctx) error {
 		{{Kind: "raw", Key: "aesgcm32", Pol: "auth", Inh: true}, R(1, "rightkey", true), {Kind: "tick", Dt: 3000}, R(1, "rightkey", true), R(1, "rightkey", false), R(1, "idonly", true)},
 		{{Kind: "mint"}, R(1, "rightkey", true), {Kind: "tick", Dt: 1500}, R(1, "rightkey", true), {Kind: "tick", Dt: 1500}, R(1, "rightkey", true), R(1, "idonly", true), {Kind: "renew", N: 1}, R(1, "rightkey", false)},
 		{{Kind: "raw", Key: "aes32", Pol: "auth", Inh: true}, {Kind: "tick", Dt: 3000}, {Kind: "renew", N: 1}, R(1, "rightkey", true), {Kind: "sweep"}, R(1, "rightkey", true)},
+		// the client proposes a lifetime of its own: the server's entry lives for the SERVER's duration and lease
+		{{Kind: "est", Enc: true, AskDur: 9000}, {Kind: "tick", Dt: 1500}, R(1, "rightkey", true), {Kind: "tick", Dt: 500}, {Kind: "tick", Dt: 500}, R(1, "rightkey", true), R(1, "rightkey", false)},
+		{{Kind: "est", Enc: true, AskDur: 1 << 40, AskLease: 1 << 40}, {Kind: "tick", Dt: 3000}, R(1, "rightkey", true), R(1, "idonly", true), {Kind: "renew", N: 1}},
+		{{Kind: "est", Enc: true, AskDur: 100, AskLease: 5}, {Kind: "tick", Dt: 500}, R(1, "rightkey", true), {Kind: "tick", Dt: 500}, R(1, "rightkey", true), {Kind: "tick", Dt: 500}, R(1, "rightkey", true)},
+		{{Kind: "est", Enc: true, Auth: true, AskLease: 9000}, {Kind: "tick", Dt: 1500}, R(1, "rightkey", true), {Kind: "tick", Dt: 1500}, R(1, "rightkey", true)},
 		// the client-side record of a session negotiated with another server is not resumed by the server half
 		{{Kind: "raw", Key: "aes32", Pol: "auth", ClientSide: true}, R(1, "rightkey", true), R(1, "idonly", true), {Kind: "resume", N: 1, Req: "rightkey", Opt: true, Cmd: 421}},
 		{{Kind: "raw", Key: "aesgcm32", Pol: "unauth", ClientSide: true, Custom: true}, R(1, "rightkey", true), R(1, "rightkey", false)},
@@ -1308,6 +1328,7 @@ func gen(c *core.Ctx) error {
 	}
 	for _, k := range []kind{
 		{op{Kind: "est", Enc: true}, "legit"},
+		{op{Kind: "est", Enc: true, AskDur: 9000, AskLease: 9000}, "rightkey"},
 		{op{Kind: "raw", Key: "aes32", Pol: "auth", ClientSide: true}, "rightkey"},
 		{op{Kind: "est", Enc: true, Auth: true}, "legit"},
 		{op{Kind: "est", Enc: false}, "legit"},
